@@ -31,7 +31,9 @@ func sweepContract(ct *Contract) *Contract {
 		n.Flags[k] = v
 	}
 	n.Flags["frame"] = "off"
-	keep := func(cl *Clause) bool { return mentionsLock(cl.Text) || strings.HasPrefix(cl.Label, "lk-") }
+	keep := func(cl *Clause) bool {
+		return mentionsLock(cl.Text) || strings.HasPrefix(cl.Label, "lk-") || strings.HasPrefix(cl.Label, "C09:")
+	}
 	for _, r := range ct.Requires {
 		if keep(r) {
 			n.Requires = append(n.Requires, r)
